@@ -215,6 +215,12 @@ def check_frag(case):
         for i, m in enumerate(msgs):
             payload = payload_of(m)
             want = ref.frame(magic, m["cmd"].encode("ascii"), payload)
+            if m.get("foreign"):
+                # a peer's message whose command is not in the library's table (msg_ser refuses to build those):
+                # the receive side still has to hand it over unchanged; names of 12 characters fill the field
+                frames.append(want)
+                cls.append("nt:foreign-command-12-chars" if len(m["cmd"]) == 12 else "nt:foreign-command")
+                continue
             cmd_arg = m["cmd"] if m.get("str") else m["cmd"].encode("ascii")
             got = attempt(p2p.msg_ser, magic, cmd_arg, payload)
             good = isinstance(got, (bytes, bytearray)) and bytes(got) == want
@@ -302,7 +308,10 @@ def msg_specs(draw, tier):
     size = draw(st.one_of(*sizes))
     fill = draw(st.binary(min_size=1, max_size=min(size, 32))) if size else b""
     m = {"cmd": cmd, "fill": hx(fill), "size": size}
-    if draw(st.booleans()):
+    if draw(st.integers(0, 7)) == 0:
+        m["cmd"] = draw(st.sampled_from(["getcfheaders", "getcfcheckpt", "zzzzzzzzzzzz", "sendaddrv2", "wtxidrelay", "feefilter", "a"]))
+        m["foreign"] = 1
+    elif draw(st.booleans()):
         m["str"] = 1
     return m
 
@@ -638,6 +647,9 @@ def check_version(p2p, case, f, cls):
         cls.append("version-clock-stub-unused")
     if explicit:
         want.update(protocol_version=case["pv"], services=case["services"], relay=relay)
+    # the transmitting node's address entry carries the same service bits as the services field (protocol reference:
+    # "addr_trans services ... should be identical to the services field"); both come from the one `services` argument
+    want["addr_trans_services"] = case["services"] if explicit else R["services"]
     bad = {k: (R[k], v) for k, v in want.items() if R[k] != v}
     f.expect(not bad and ref.build_version(R) == built, "codec/version/build-ne-reference-layout", f"(field: (in payload, argument)) {bad}")
     if R["relay"] is None or bad:
@@ -913,7 +925,7 @@ def targets(tier):
             budget={"quick": 4000, "thorough": 120000},
             required=[
                 "nt:cut-in-header", "nt:cut-in-payload", "nt:back-to-back-2", "nt:back-to-back-3", "nt:chunk-spans-boundary",
-                "all-1-byte", "single-message", "payload-empty", "payload<=1000",
+                "all-1-byte", "single-message", "payload-empty", "payload<=1000", "nt:foreign-command-12-chars", "nt:foreign-command",
             ] + (["payload>1000"] if tier != "quick" else []),
         ),
         Target(
